@@ -74,11 +74,28 @@ Upper(a) == IF IsNullV(a) THEN Null ELSE IF IsStr(a) THEN S([i \in DOMAIN a.s |-
 IsNullF(a) == IF a.t = "opq" THEN Opq("isnull", <<a>>) ELSE B(IsNullV(a))
 
 \* coalesce(a, FALSE): NULL becomes FALSE
+\* values whose truth is certainly not TRUE: NULL, FALSE, and a conjunction with such an operand
+\* (x AND NULL is NULL or FALSE whatever the uninterpreted x is)
+RECURSIVE Falsy(_)
+Falsy(a) ==
+  IsNullV(a) \/ a = B(FALSE) \/ (a.t = "opq" /\ a.f = "and" /\ \E i \in DOMAIN a.args : Falsy(a.args[i]))
 CoalesceF(a) ==
-  IF IsNullV(a) THEN B(FALSE) ELSE IF IsBool(a) THEN a
+  IF Falsy(a) THEN B(FALSE) ELSE IF IsBool(a) THEN a
   ELSE IF a.t = "opq" /\ a.f = "coalesce" /\ Len(a.args) = 2 /\ a.args[2] = B(FALSE) THEN a   \* idempotent
   ELSE Opq("coalesce", <<a, B(FALSE)>>)
 Coalesce2(a, b) == IF IsNullV(a) THEN b ELSE IF a.t = "opq" THEN Opq("coalesce", <<a, b>>) ELSE a
+
+\* truth normal form (join conditions are compared by truth): a value that is certainly not TRUE is FALSE;
+\* coalesce(x, FALSE) is true exactly when x is; a conjunction is true exactly when its operands are
+RECURSIVE TruthNF(_)
+TruthNF(a) ==
+  IF Falsy(a) THEN B(FALSE)
+  ELSE IF a.t = "opq" /\ a.f = "coalesce" /\ Len(a.args) = 2 /\ a.args[2] = B(FALSE) THEN TruthNF(a.args[1])
+  ELSE IF a.t = "opq" /\ a.f = "and" THEN
+       LET as == [i \in DOMAIN a.args |-> TruthNF(a.args[i])] IN
+       IF \E i \in DOMAIN as : as[i] = B(FALSE) THEN B(FALSE) ELSE Opq("and", as)
+  ELSE a
+
 
 \* CASE WHEN w THEN a ELSE b END
 CaseV(w, a, b) == IF IsBool(w) THEN (IF w.b THEN a ELSE b) ELSE IF IsNullV(w) THEN b ELSE Opq("case", <<w, a, b>>)
